@@ -281,6 +281,9 @@ fn gen(tier: &str, seed: u64, out: &mut dyn FnMut(String)) {
 
     gen_robust(thorough, &mut rng, out, &enum_kinds, &all_spellings);
     gen_part2(thorough, &mut rng, out, &enum_kinds, &all_spellings);
+    gen_part3(thorough, &mut rng, out, &enum_kinds, &all_spellings);
+    // the last line of a run: how many times the native reference was compared with the model / used in its place
+    out("refstats".to_string());
 }
 
 // ---------------------------------------------------------------- robustness streams (typed ops)
@@ -746,8 +749,238 @@ fn gen_part2(thorough: bool, rng: &mut Rng, out: &mut dyn FnMut(String), enum_ki
             }
         }
     }
-    // the last line of a run: how many times the native reference was compared with the model / used in its place
-    out("refstats".to_string());
+}
+
+// ---------------------------------------------------------------- part 3: layouts, value relations, giant sizes (fourth round of seeded changes)
+
+/// sign pattern of an all-zero float lane (every element `==` every other, bit patterns differ): 0 alternating, 1 all -0.0 but the first,
+/// 2 all 0.0 but the last, 3 random, 4 Thue-Morse, 5 blocks of 7, 6 all -0.0
+fn zero_mix(n: usize, mode: usize, rng: &mut Rng) -> Vec<&'static str> {
+    (0..n).map(|i| { let neg = match mode { 0 => i % 2 == 1, 1 => i != 0, 2 => i == n - 1, 3 => rng.below(2) == 1, 4 => (i as u64).count_ones() % 2 == 1, 5 => (i / 7) % 2 == 1, _ => true }; if neg { "z" } else { "0" } }).collect()
+}
+fn heap_ty(ty: &str) -> bool { ty.ends_with('s') || ty == "str" || ty.starts_with("sl") }
+
+fn gen_part3(thorough: bool, rng: &mut Rng, out: &mut dyn FnMut(String), enum_kinds: &[String], all_spellings: &[String]) {
+    let keeps = ["none", "true", "false"];
+    let mut k = 0usize;
+    let emit_all = |out: &mut dyn FnMut(String), k: usize, ty: &str, a: &str, ax: &str, model: bool, ranks: bool| {
+        let sfx = if model { "" } else { " ref" };
+        out(format!("tsort {ty}:b {a} {ax} {}{sfx}", enum_kinds[k % 4]));
+        out(format!("tsort {ty}:b {a} {ax} {}{sfx}", enum_kinds[(k + 1) % 4]));
+        if ranks { out(format!("targsort {ty}:b {a} {ax} {}{sfx}", enum_kinds[(k + 2) % 4])); }
+        out(format!("targmax {ty}:b {a} {ax} {}{sfx}", keeps[k % 3]));
+        out(format!("targmin {ty}:b {a} {ax} {}{sfx}", keeps[(k + 1) % 3]));
+        if model { out(format!("tunique {ty}:b {a} {ax}")); }
+    };
+    // ---- (12a) element LAYOUT: the ladder of element sizes 3, 6, 9, 12, 16, 20, 24, 28, 32 (Copy), 32 (with a String), 40, 48 (two
+    //      Strings), 72 bytes (tuples and nested tuples; tags mapped strictly monotonically, so the model's answer on the tags is the
+    //      expected answer).  Small scope: every lane over {0,1,2} of length <= 3, every permutation of 0..n for n = 3, 4 and half of
+    //      n = 5 (the other half in the thorough tier) - among them every sorting permutation that is not an involution -, x 4 kinds,
+    //      ranks, extremes, unique, both receivers
+    let mut small: Vec<Vec<i64>> = vec![];
+    for len in 0..=3 { small.extend(words(3, len)); }
+    for n in 3..=5 { for p in permutations(n) { small.push(p.iter().map(|&x| x as i64 * if n == 4 { 60 } else { 1 }).collect()); } }
+    for (ti, (ty, _)) in LADDER.iter().enumerate() {
+        for (li, w) in small.iter().enumerate() {
+            if w.len() == 5 && !thorough && (li + ti) % 2 == 0 { continue; }
+            let a = arr1(w);
+            let ax = if w.len() == 4 { ["0", "-1"][li % 2] } else { "none" };
+            for kd in enum_kinds { out(format!("tsort {ty}:b {a} {ax} {kd}")); }
+            if thorough { for kd in enum_kinds { out(format!("targsort {ty}:b {a} {ax} {kd}")); } } else { out(format!("targsort {ty}:b {a} {ax} {}", enum_kinds[(li + ti) % 4])); }
+            out(format!("targmax {ty}:b {a} {ax} {}", keeps[li % 3])); out(format!("targmin {ty}:b {a} {ax} {}", keeps[(li + 1) % 3]));
+            out(format!("tunique {ty}:b {a} {ax}"));
+        }
+    }
+    // ---- (12b) longer lanes on every layout: duplicate-heavy and spread values, all kinds + a spelled selector on the chained receiver
+    for (ti, (ty, _)) in LADDER.iter().enumerate() {
+        let mut lens = vec![2usize, 3, 5, 8, 13, 21, 33, 65, 100, 130];
+        if !heap_ty(ty) || thorough { lens.extend([257, 528]); }
+        if thorough && !heap_ty(ty) { lens.extend([1030, 2100]); }
+        for (li, &n) in lens.iter().enumerate() {
+            let hi = if (li + ti) % 2 == 0 { 3 } else { 255 };
+            let v: Vec<i64> = (0..n).map(|_| rng.range(0, hi)).collect();
+            let a = arr1(&v);
+            let ax = ["none", "0", "-1"][(li + ti) % 3];
+            for kd in enum_kinds { out(format!("tsort {ty}:b {a} {ax} {kd}")); }
+            out(format!("tsort {ty}:r {a} {ax} {}", all_spellings[(li * 5 + ti * 3) % all_spellings.len()]));
+            if n <= 130 { out(format!("targsort {ty}:b {a} {ax} {}", enum_kinds[(li + ti) % 4])); out(format!("targsort {ty}:p {a} none {}", enum_kinds[(li + ti + 1) % 4])); }
+            out(format!("targmax {ty}:b {a} {ax} {}", keeps[li % 3])); out(format!("targmin {ty}:b {a} {ax} {}", keeps[(li + 2) % 3]));
+            out(format!("tunique {ty}:b {a} {ax}"));
+        }
+    }
+    // ---- (12c) every layout as lanes of n-D arrays: every axis (both spellings in the thorough tier, alternating in the quick tier)
+    let nd_shapes: Vec<Vec<usize>> = vec![vec![3, 4], vec![4, 3], vec![2, 3, 4], vec![5, 7], vec![2, 2, 2, 2], vec![8, 3], vec![17, 16], vec![3, 1, 5], vec![2, 40]];
+    for (ti, (ty, _)) in LADDER.iter().enumerate() {
+        for (si, s) in nd_shapes.iter().enumerate() {
+            if !thorough && (si + ti) % 3 == 2 { continue; }
+            let n: usize = s.iter().product();
+            let nd = s.len() as isize;
+            let v: Vec<i64> = if (si + ti) % 2 == 0 { (0..n).map(|_| rng.range(0, 4)).collect() } else { rng.perm(n).into_iter().map(|j| (j % 256) as i64).collect() };
+            let a = arr_shaped(s, &v);
+            for ax in 0..nd { for sp in [ax, ax - nd] { if !thorough && ((ax + (sp < 0) as isize) as usize + si + ti) % 2 == 0 { continue; } k += 1; emit_all(out, k, ty, &a, &sp.to_string(), true, true); } }
+            emit_all(out, k, ty, &a, "none", true, true);
+            out(format!("tsort {ty}:b {a} {nd} e:Stable")); out(format!("targmax {ty}:b {a} {} true", -nd - 1));
+        }
+        // zero-length axes on every layout
+        for j in 0..(if thorough { 9 } else { 3 }) {
+            let zs = zero_shapes(); let s = &zs[(ti + j * 4) % zs.len()];
+            let a = format!("{}:-", show_list(s));
+            let nd = s.len() as isize;
+            for ax in ["none".to_string(), "0".to_string(), "-1".to_string(), nd.to_string()] { k += 1; emit_all(out, k, ty, &a, &ax, true, true); }
+        }
+    }
+    // ---- (12d) the same lane through every layout (and the five plain element types) directly after one another
+    for (i, n) in [3usize, 5, 9, 17, 33].iter().enumerate() {
+        let v: Vec<i64> = (0..*n).map(|_| rng.range(0, if i % 2 == 0 { 100 } else { 3 })).collect();
+        let all_tys: Vec<&str> = LADDER.iter().map(|x| x.0).chain(TYS).collect();
+        for (shape, ax) in [(vec![*n], "none"), (if n % 3 == 0 { vec![3, n / 3] } else { vec![1, *n] }, "1")] {
+            for ty in &all_tys { out(format!("tsort {ty}:b {} {ax} {}", lane_ty(ty, &shape, &v, 1), enum_kinds[i % 4])); }
+            for ty in all_tys.iter().rev() { out(format!("targsort {ty}:b {} {ax} {}", lane_ty(ty, &shape, &v, 1), enum_kinds[(i + 1) % 4])); }
+            for ty in &all_tys { out(format!("targmax {ty}:b {} {ax} {}", lane_ty(ty, &shape, &v, 1), keeps[i % 3])); out(format!("tunique {ty}:p {} {ax}", lane_ty(ty, &shape, &v, 1))); }
+        }
+    }
+    // ---- (12e) layouts x sizes (`ref` cases, generator spelling, values 0..=255): contiguous and strided lanes of 12 600 .. 33 000-element
+    //      arrays for the Copy layouts, up to 4 900 elements for the layouts that own Strings (the crate clones them per lane call)
+    let copy_huge: Vec<(Vec<usize>, &str)> = vec![(vec![16, 32, 40], "2"), (vec![16, 32, 40], "1"), (vec![130, 130], "0"), (vec![129, 131], "-1"), (vec![16385], "none"), (vec![2, 8200], "1"),
+        (vec![3, 60, 70], "0"), (vec![33000], "0"), (vec![26, 26, 26], "1"), (vec![10, 11, 12, 13], "-2"), (vec![300, 300], "1"), (vec![8200, 2], "0")];
+    let heap_huge: Vec<(Vec<usize>, &str)> = vec![(vec![70, 70], "0"), (vec![4100], "none"), (vec![16, 17, 18], "1"), (vec![70, 70], "-1"), (vec![2, 2050], "1"), (vec![4900], "0")];
+    for (ti, (ty, _)) in LADDER.iter().enumerate() {
+        let pool = if heap_ty(ty) { &heap_huge } else { &copy_huge };
+        let cnt = if thorough { pool.len() } else { 2 };
+        for j in 0..cnt {
+            let (s, ax) = &pool[(ti * 5 + j * 7) % pool.len()];
+            k += 1;
+            let n: usize = s.iter().product();
+            let lane = match ax.parse::<isize>() { Ok(a) => s[(if a < 0 { a + s.len() as isize } else { a }) as usize], Err(_) => n };
+            let a = format!("G{}.{}.255:{}", [0, 1, 4][k % 3], rng.next() % 100000, show_list(s));
+            // (lanes beyond 5000 elements: 256 distinct values = long runs of repeats, on which the crate's quicksort is quadratic)
+            let kinds: Vec<&String> = if lane > 5000 { enum_kinds[1..].iter().collect() } else { enum_kinds.iter().collect() };
+            out(format!("tsort {ty}:b {a} {ax} {} ref", kinds[k % kinds.len()]));
+            out(format!("tsort {ty}:p {a} {ax} {} ref", kinds[(k + 1) % kinds.len()]));
+            if thorough { out(format!("tsort {ty}:r {a} {ax} {} ref", kinds[(k + 2) % kinds.len()])); }
+            if lane <= 300 && !heap_ty(ty) { out(format!("targsort {ty}:b {a} {ax} {} ref", enum_kinds[k % 4])); }
+            if lane <= 5000 && n / lane.max(1) <= 4000 { out(format!("targmax {ty}:b {a} {ax} {} ref", keeps[k % 3])); out(format!("targmin {ty}:p {a} {ax} {} ref", keeps[(k + 1) % 3])); }
+        }
+    }
+    // ---- (13a) VALUE RELATIONS: float lanes whose elements are all `==` but not bit-identical (0.0 / -0.0 in seven sign patterns), every
+    //      length 1..=40 and 48, 63..65, 100, 130, 257, 528, 1030 (thorough 2100, 4100): sort x 4 kinds (value level + multiset of
+    //      bit patterns), ranks (order of appearance: 0, 1, 2, …), extremes (position 0), unique (one zero); the same lanes with ONE element
+    //      that differs (a 1, or the smallest negative subnormal) at the front / middle / end; as rows and columns of 2-D arrays
+    let mut zl: Vec<usize> = (1..=40).collect();
+    zl.extend([48usize, 63, 64, 65, 100, 130, 257, 528, 1030]);
+    if thorough { zl.extend([2100usize, 4100]); }
+    for (li, &n) in zl.iter().enumerate() {
+        let modes: Vec<usize> = if thorough && n <= 130 { (0..7).collect() } else { vec![li % 7, (li * 3 + 1) % 7] };
+        for (mi, &m) in modes.iter().enumerate() {
+            let toks = zero_mix(n, m, rng);
+            let a = format!("{n}:{}", toks.join(","));
+            let ax = ["none", "0", "-1"][(li + mi) % 3];
+            let ks: &[String] = if n > 1100 { &enum_kinds[1 + (li + mi) % 3..2 + (li + mi) % 3] } else { enum_kinds };
+            for kd in ks { out(format!("tsort f64:b {a} {ax} {kd}")); }
+            if n <= 130 { for kd in enum_kinds { out(format!("targsort f64:b {a} {ax} {kd}")); } out(format!("targsort f64:r {a} none {}", all_spellings[(li * 3 + mi) % all_spellings.len()])); }
+            else if n <= 1100 { out(format!("targsort f64:b {a} {ax} {}", enum_kinds[(li + mi) % 4])); }
+            if n <= 1100 { for kd in keeps { out(format!("targmax f64:b {a} {ax} {kd}")); out(format!("targmin f64:b {a} {ax} {kd}")); } }
+            out(format!("tunique f64:b {a} {ax}"));
+            // one element differs
+            if n >= 2 && n <= 1100 {
+                let mut t2 = toks.clone();
+                let pos = [0, n / 2, n - 1][(li + mi) % 3];
+                t2[pos] = ["1", "-e", "e", "-1"][(li + mi) % 4];
+                let a2 = format!("{n}:{}", t2.join(","));
+                out(format!("tsort f64:b {a2} {ax} {}", enum_kinds[(li + mi) % 4])); out(format!("tsort f64:b {a2} {ax} {}", enum_kinds[(li + mi + 1) % 4]));
+                if n <= 130 { out(format!("targsort f64:b {a2} {ax} {}", enum_kinds[(li + mi + 2) % 4])); }
+                out(format!("targmax f64:b {a2} {ax} none")); out(format!("targmin f64:b {a2} {ax} true")); out(format!("tunique f64:b {a2} {ax}"));
+            }
+        }
+        if [2usize, 3, 8, 21, 33, 65].contains(&n) {
+            let (r0, r1) = (zero_mix(n, 0, rng), zero_mix(n, 4, rng));
+            let rows = format!("2,{n}:{},{}", r0.join(","), r1.join(","));
+            let cols = format!("{n},2:{}", (0..n).map(|j| format!("{},{}", r0[j], r1[j])).collect::<Vec<_>>().join(","));
+            for (a, ax) in [(&rows, "1"), (&rows, "0"), (&cols, "0"), (&cols, "-1")] { k += 1; emit_all(out, k, "f64", a, ax, true, true); }
+        }
+    }
+    // constant lanes on every other element type and layout (a constant source: every comparison says "equal")
+    for (ti, ty) in TYS.iter().filter(|t| **t != "f64").copied().chain(LADDER.iter().map(|x| x.0)).enumerate() {
+        for (li, &n) in [1usize, 2, 3, 21, 33, 64, 65, 130, 257].iter().enumerate() {
+            if heap_ty(ty) && n > 130 { continue; }
+            let a = arr1(&vec![[0i64, 100, 7][(ti + li) % 3]; n]);
+            k += 1; emit_all(out, k, ty, &a, ["none", "0", "-1"][(ti + li) % 3], true, n <= 130);
+        }
+    }
+    // huge all-zero float arrays (`ref`; no quicksort and no extremes on lanes beyond 2000 elements: the crate's quicksort recurses once per
+    // repeated element)
+    for (s, ax) in [(vec![130usize, 130], "0"), (vec![130, 130], "1"), (vec![16385], "0"), (vec![2, 8200], "1"), (vec![16, 32, 40], "1")] {
+        let lane = match ax.parse::<usize>() { Ok(a) => s[a], Err(_) => 0 };
+        let a = format!("G0.{}.0:{}", rng.next() % 100000, show_list(&s));
+        for kd in &enum_kinds[1..] { out(format!("tsort f64:b {a} {ax} {kd} ref")); }
+        if lane <= 600 { out(format!("tsort f64:b {a} {ax} e:Quicksort ref")); out(format!("targsort f64:b {a} {ax} e:Stable ref")); out(format!("targmax f64:b {a} {ax} none ref")); out(format!("targmin f64:b {a} {ax} true ref")); }
+    }
+    // ---- (13b) VALUE RELATIONS: String lanes whose members share a stem of 32 / 33 / 64 / 65 / 1024 bytes before the first difference
+    //      (one member IS the stem, a proper prefix of all the others)
+    for (si, stem) in [32usize, 33, 64, 65, 1024].iter().enumerate() {
+        let ty = format!("sl{stem}");
+        for len in 0..=3 { for (wi, w) in words(3, len).iter().enumerate() {
+            if !thorough && (wi + si) % 2 == 1 && len == 3 { continue; }
+            let a = arr1(w);
+            out(format!("tsort {ty}:b {a} none {}", enum_kinds[(wi + si) % 4])); out(format!("targsort {ty}:b {a} none {}", enum_kinds[(wi + si + 1) % 4]));
+            out(format!("targmax {ty}:b {a} none none")); out(format!("targmin {ty}:b {a} none none")); out(format!("tunique {ty}:b {a} none"));
+        } }
+        for (li, &n) in [2usize, 5, 9, 21, 33, 65].iter().enumerate() {
+            if *stem == 1024 && n > 21 && !thorough { continue; }
+            let v: Vec<i64> = (0..n).map(|_| if li % 2 == 0 { rng.range(0, 15) } else { *rng.pick(&[0i64, 1, 5, 7, 9, 13, 14, 40, 1000]) }).collect();
+            for (shape, ax) in [(vec![n], "none"), (vec![n], "0"), (vec![1, n], "-1")] {
+                let a = arr_shaped(&shape, &v);
+                for kd in enum_kinds { out(format!("tsort {ty}:b {a} {ax} {kd}")); }
+                out(format!("targsort {ty}:b {a} {ax} {}", enum_kinds[(li + si) % 4]));
+                out(format!("targmax {ty}:b {a} {ax} {}", keeps[li % 3])); out(format!("targmin {ty}:b {a} {ax} {}", keeps[(li + 1) % 3]));
+                out(format!("tunique {ty}:b {a} {ax}"));
+            }
+        }
+    }
+    // ---- (15) axis values that survive a narrowing cast (`axis as u8 / u16 / u32` = a valid axis): refused like every axis outside the rank
+    for s in [vec![3usize], vec![2, 3], vec![2, 3, 2]] {
+        let n: usize = s.iter().product();
+        let nd = s.len() as isize;
+        let a = arr_shaped(&s, &(0..n as i64).map(|i| (i * 5) % 7).collect::<Vec<_>>());
+        for c in 0..s.len() {
+            for img in narrowing_images(c) {
+                for ax in [img as isize, (c as isize - nd) - (img - c) as isize] {
+                    out(format!("sort {a} {ax} e:Quicksort")); out(format!("argsort {a} {ax} e:Stable")); out(format!("argmax {a} {ax} none")); out(format!("argmin {a} {ax} true")); out(format!("unique {a} {ax}"));
+                    out(format!("tsort L32s:b {a} {ax} e:Mergesort"));
+                }
+            }
+            // ... directly followed by the valid call
+            out(format!("sort {a} {c} e:Quicksort")); out(format!("argmax {a} {c} none"));
+        }
+    }
+    // ---- (11) GIANT arrays (more than 2^20 elements; `ref` lines, generator spelling with near-distinct values, compared IN PLACE with the
+    //      native reference): one lane of 2^20+5 elements (flat form and axis 0), the giant_shapes() of lib.rs on the axes that give at most
+    //      ~8000 lanes, and MORE THAN 65 536 LANES ([65537,2] / [2,65537] / [70001,3]; the crate's lane splitting is quadratic in the
+    //      number of lanes: seconds per call, so one or two calls each)
+    let top = 100_000_000i64;
+    let mut giant: Vec<(Vec<usize>, &str, &str, &str, &str)> = vec![
+        (vec![1 << 20 | 5], "none", "tsort", "e:Mergesort", "i64:p"), (vec![1 << 20 | 5], "0", "tsort", "e:Stable", "f64:p"), (vec![1 << 20 | 5], "none", "tsort", "e:Heapsort", "i64:r"),
+        (vec![1 << 20 | 5], "-1", "tsort", "e:Quicksort", "i64:p"), (vec![1 << 20 | 5], "none", "targmax", "none", "i64:p"), (vec![1 << 20 | 5], "0", "targmin", "true", "f64:p"),
+        (vec![3, 400_001], "1", "tsort", "e:Stable", "i64:p"), (vec![400_001, 3], "0", "tsort", "e:Mergesort", "f64:p"), (vec![400_001, 3], "0", "targmax", "false", "i64:p"),
+        (vec![1031, 1033], "0", "tsort", "e:Heapsort", "i64:p"), (vec![1031, 1033], "1", "tsort", "e:Quicksort", "u8:p"), (vec![1031, 1033], "-1", "targmin", "none", "i64:b"),
+        (vec![2, 131_073, 4], "1", "tsort", "e:Stable", "i64:p"), (vec![2, 3, 174_763], "2", "tsort", "e:Mergesort", "i64:p"), (vec![600, 2, 1000], "2", "tsort", "e:Stable", "i64:p"),
+        (vec![65, 129, 127], "1", "tsort", "e:Quicksort", "i64:p"), (vec![65, 129, 127], "2", "targmax", "true", "i64:p"),
+        (vec![65_537, 2], "1", "tsort", "e:Quicksort", "i64:p"), (vec![2, 65_537], "0", "targmax", "none", "i64:p")];
+    if thorough { giant.extend([
+        (vec![1 << 20 | 5], "0", "tsort", "s:535441424c45", "i64:b"), (vec![2_097_153], "none", "tsort", "e:Mergesort", "i64:p"), (vec![2_097_153], "0", "tsort", "e:Stable", "f64:p"), (vec![2_097_153], "none", "targmin", "none", "i64:p"),
+        (vec![3, 400_001], "-1", "tsort", "e:Heapsort", "f64:b"), (vec![3, 400_001], "1", "targmax", "true", "i64:p"), (vec![400_001, 3], "-2", "tsort", "e:Quicksort", "i64:p"),
+        (vec![5, 70_000, 4], "1", "tsort", "e:Mergesort", "i64:p"), (vec![5, 70_000, 4], "-2", "targmin", "false", "f64:p"), (vec![2, 131_073, 4], "-2", "tsort", "e:Heapsort", "f64:p"), (vec![2, 131_073, 4], "1", "targmax", "none", "i64:p"),
+        (vec![2, 3, 174_763], "-1", "tsort", "e:Stable", "f64:p"), (vec![600, 2, 1000], "-1", "tsort", "e:Quicksort", "i64:b"), (vec![600, 2, 1000], "2", "targmax", "none", "i64:p"), (vec![1031, 1033], "1", "tsort", "e:Stable", "L12:p"), (vec![1031, 1033], "0", "tsort", "e:Mergesort", "L32:p"),
+        (vec![65, 129, 127], "-2", "tsort", "e:Mergesort", "f64:p"), (vec![65, 129, 127], "0", "tsort", "e:Stable", "i64:p"), (vec![4099, 257], "1", "tsort", "e:Heapsort", "i64:p"), (vec![4099, 257], "1", "targmin", "true", "i64:p"),
+        (vec![65_537, 2], "-1", "targsort", "e:Stable", "i64:p"), (vec![65_537, 2], "1", "targmin", "false", "f64:p"), (vec![2, 65_537], "0", "tsort", "e:Mergesort", "f64:p"), (vec![70_001, 3], "1", "tsort", "e:Stable", "i64:p"), (vec![3, 70_001], "-2", "targmax", "true", "i64:p"),
+        (vec![65_537, 16], "1", "tsort", "e:Heapsort", "i64:p")]); }
+    for (s, ax, op, arg, tr) in &giant {
+        let (p, hi) = if tr.starts_with("u8") || tr.starts_with('L') { (0, 255) } else { (1, top) };
+        out(format!("{op} {tr} G{p}.{}.{hi}:{} {ax} {arg} ref", rng.next() % 100000, show_list(s)));
+    }
+    // an all-zero (0.0 / -0.0) lane of 2^20+5 elements: merge / stable (value relation x giant size)
+    out(format!("tsort f64:p G0.{}.0:{} none e:Mergesort ref", rng.next() % 100000, 1 << 20 | 5));
+    if thorough { out(format!("tsort f64:p G0.{}.0:{} 0 e:Stable ref", rng.next() % 100000, 1 << 20 | 5)); out(format!("tsort f64:p G0.{}.0:3,400001 1 e:Heapsort ref", rng.next() % 100000)); }
 }
 
 // ---------------------------------------------------------------- executor
@@ -789,18 +1022,86 @@ trait Lane: ArrayElement + std::fmt::Display + PartialOrd {
     fn tok(&self) -> String;
     /// identity of the representation (bit pattern)
     fn raw(&self) -> String;
+    /// the bit pattern itself where `==` is coarser than identity (f64: 0.0 / -0.0); used by the giant cases, which never build texts
+    fn bits64(&self) -> Option<u64> { None }
+    /// an integer tag without the detour through text (giant generator-spelled arrays)
+    fn from_i64(x: i64) -> Option<Self> { Self::from_tok(&x.to_string()) }
 }
-impl Lane for i64 { fn from_tok(t: &str) -> Option<Self> { t.parse().ok() } fn tok(&self) -> String { self.to_string() } fn raw(&self) -> String { self.to_string() } }
+impl Lane for i64 { fn from_tok(t: &str) -> Option<Self> { t.parse().ok() } fn tok(&self) -> String { self.to_string() } fn raw(&self) -> String { self.to_string() } fn from_i64(x: i64) -> Option<Self> { Some(x) } }
 impl Lane for u8 { fn from_tok(t: &str) -> Option<Self> { t.parse().ok() } fn tok(&self) -> String { self.to_string() } fn raw(&self) -> String { self.to_string() } }
 impl Lane for i8 { fn from_tok(t: &str) -> Option<Self> { t.parse().ok() } fn tok(&self) -> String { self.to_string() } fn raw(&self) -> String { self.to_string() } }
+thread_local! {
+    /// element type `sl<k>`: every String of the lane starts with the same stem of k bytes (the first difference comes after 32 / 33 / 64 /
+    /// 65 / 1024 equal bytes; the key of `STR_TABLE[0]` IS the stem: a proper prefix of all others)
+    static STEM: Cell<usize> = Cell::new(0);
+}
+fn stem_text(k: usize) -> String { (0..k).map(|i| (b'a' + (i % 23) as u8) as char).collect() }
 impl Lane for String {
-    fn from_tok(t: &str) -> Option<Self> { let k: usize = t.parse().ok()?; Some(if k < STR_TABLE.len() { STR_TABLE[k].to_string() } else { format!("日本{k:09}") }) }
+    fn from_tok(t: &str) -> Option<Self> {
+        let k: usize = t.parse().ok()?;
+        let body = if k < STR_TABLE.len() { STR_TABLE[k].to_string() } else { format!("日本{k:09}") };
+        let st = STEM.with(Cell::get);
+        Some(if st == 0 { body } else { format!("{}{body}", stem_text(st)) })
+    }
     fn tok(&self) -> String {
-        if let Some(k) = STR_TABLE.iter().position(|x| x == self) { return k.to_string(); }
-        self.strip_prefix("日本").and_then(|d| d.parse::<usize>().ok()).map_or_else(|| format!("?{self}"), |k| k.to_string())
+        let st = STEM.with(Cell::get);
+        let stem = stem_text(st);
+        let Some(body) = self.strip_prefix(stem.as_str()) else { return format!("?{self}") };
+        if let Some(k) = STR_TABLE.iter().position(|x| *x == body) { return k.to_string(); }
+        body.strip_prefix("日本").and_then(|d| d.parse::<usize>().ok()).map_or_else(|| format!("?{self}"), |k| k.to_string())
     }
     fn raw(&self) -> String { format!("{self:?}") }
 }
+
+// ---------------------------------------------------------------- part 3: the element-LAYOUT ladder (`size_of::<T>()` = 3 … 72 bytes)
+
+/// strictly monotonic codes: `enc` maps 0..CAP into the type preserving `<` (tuples compare lexicographically: mixed radix),
+/// `dec` is its inverse (None: not an image)
+trait Enc: Sized { const CAP: i64; fn enc(c: i64) -> Self; fn dec(&self) -> Option<i64>; }
+impl Enc for u8 { const CAP: i64 = 8; fn enc(c: i64) -> Self { (c * 36 + 3) as u8 } fn dec(&self) -> Option<i64> { let x = *self as i64 - 3; (x >= 0 && x % 36 == 0).then_some(x / 36) } }
+impl Enc for u16 { const CAP: i64 = 8; fn enc(c: i64) -> Self { (c * 9000 + 7) as u16 } fn dec(&self) -> Option<i64> { let x = *self as i64 - 7; (x >= 0 && x % 9000 == 0).then_some(x / 9000) } }
+impl Enc for i32 { const CAP: i64 = 16; fn enc(c: i64) -> Self { ((c - 8) * 100_000_007) as i32 } fn dec(&self) -> Option<i64> { let x = *self as i64; (x % 100_000_007 == 0).then_some(x / 100_000_007 + 8) } }
+impl Enc for i64 { const CAP: i64 = 16; fn enc(c: i64) -> Self { (c - 8) * ((1 << 53) + 1) } fn dec(&self) -> Option<i64> { let m = (1i64 << 53) + 1; (*self % m == 0).then_some(*self / m + 8) } }
+/// strictly increasing in byte order
+const STR16: [&str; 16] = ["", " ", "0", "10", "9", "A", "B", "a", "a ", "aa", "ab", "b", "é", "日本", "日本0", "日本語"];
+impl Enc for String { const CAP: i64 = 16; fn enc(c: i64) -> Self { STR16[c as usize].to_string() } fn dec(&self) -> Option<i64> { STR16.iter().position(|x| x == self).map(|k| k as i64) } }
+impl <A: Enc + ArrayElement, B: Enc + ArrayElement> Enc for Tuple2<A, B> {
+    const CAP: i64 = A::CAP * B::CAP;
+    fn enc(c: i64) -> Self { Tuple2(A::enc(c / B::CAP), B::enc(c % B::CAP)) }
+    fn dec(&self) -> Option<i64> { Some(self.0.dec()? * B::CAP + self.1.dec()?) }
+}
+impl <A: Enc + ArrayElement, B: Enc + ArrayElement, C: Enc + ArrayElement> Enc for Tuple3<A, B, C> {
+    const CAP: i64 = A::CAP * B::CAP * C::CAP;
+    fn enc(c: i64) -> Self { Tuple3(A::enc(c / (B::CAP * C::CAP)), B::enc(c / C::CAP % B::CAP), C::enc(c % C::CAP)) }
+    fn dec(&self) -> Option<i64> { Some((self.0.dec()? * B::CAP + self.1.dec()?) * C::CAP + self.2.dec()?) }
+}
+/// tag 0..=255 -> code: strictly increasing, and the low-order components vary pseudo-randomly (so every component of a tuple
+/// takes part in some comparison)
+fn spread<T: Enc>(t: i64) -> i64 { let step = T::CAP / 256; t * step + (((t as u64 + 1).wrapping_mul(0x9E37_79B9_7F4A_7C15) >> 24) as i64) % step }
+type L3 = Tuple3<u8, u8, u8>;                 // 3 bytes
+type L6 = Tuple3<u16, u16, u16>;              // 6
+type L9 = Tuple3<L3, L3, L3>;                 // 9
+type L12 = Tuple3<i32, i32, i32>;             // 12
+type L16 = Tuple2<i64, i64>;                  // 16
+type L20 = Tuple2<L12, Tuple2<i32, i32>>;     // 20
+type L24 = Tuple3<i64, i64, i64>;             // 24
+type L28 = Tuple2<L12, Tuple2<Tuple2<i32, i32>, Tuple2<i32, i32>>>;   // 28
+type L32 = Tuple2<L16, L16>;                  // 32, Copy
+type L32s = Tuple2<String, i32>;              // 32, owns heap memory
+type L40 = Tuple2<L24, L16>;                  // 40
+type L48s = Tuple2<String, String>;           // 48, owns heap memory
+type L72 = Tuple3<L24, L24, L24>;             // 72
+const LADDER: [(&str, usize); 13] = [("L3", 3), ("L6", 6), ("L9", 9), ("L12", 12), ("L16", 16), ("L20", 20), ("L24", 24), ("L28", 28), ("L32", 32), ("L32s", 32), ("L40", 40), ("L48s", 48), ("L72", 72)];
+macro_rules! ladder_lane { ($($t:ty),*) => { $(impl Lane for $t {
+    fn from_tok(t: &str) -> Option<Self> { let k: i64 = t.parse().ok()?; if !(0..256).contains(&k) { return None; } Some(<$t as Enc>::enc(spread::<$t>(k))) }
+    fn tok(&self) -> String {
+        let Some(c) = self.dec() else { return format!("?{self:?}") };
+        let k = c / (<$t as Enc>::CAP / 256);
+        if k < 256 && spread::<$t>(k) == c { k.to_string() } else { format!("?{self:?}") }
+    }
+    fn raw(&self) -> String { format!("{self:?}") }
+})* } }
+ladder_lane!(L3, L6, L9, L12, L16, L20, L24, L28, L32, L32s, L40, L48s, L72);
 impl Lane for f64 {
     fn from_tok(t: &str) -> Option<Self> {
         Some(match t { "n" => f64::NAN, "z" => -0.0, "e" => f64::from_bits(1), "-e" => -f64::from_bits(1), "I" => f64::INFINITY, "-I" => f64::NEG_INFINITY,
@@ -812,6 +1113,8 @@ impl Lane for f64 {
         else if self.fract() == 0.0 && self.abs() <= 9.1e15 { (*self as i64).to_string() } else { format!("?{self:e}") }
     }
     fn raw(&self) -> String { format!("{:016x}", self.to_bits()) }
+    fn bits64(&self) -> Option<u64> { Some(self.to_bits()) }
+    fn from_i64(x: i64) -> Option<Self> { if x.unsigned_abs() > 1u64 << 53 { None } else { Some(x as f64) } }
 }
 /// the values of a generator spelling `G<pattern>.<seed>.<hi>` for `n` elements, all in 0..=hi (hi <= 100: valid for every element type)
 fn gen_values(spec: &str, n: usize) -> Option<Vec<i64>> {
@@ -832,9 +1135,9 @@ fn parse_lane<T: Lane>(s: &str) -> Option<Array<T>> {
         let (spec, sh) = s.split_once(':')?;
         let shape = parse_usize_list(sh);
         let v = gen_values(spec, shape.iter().product())?;
-        // float lanes: every other zero is -0.0 (as in `lane_ty`)
-        let toks = f64_tokens(&v, 1);
-        let elems: Vec<T> = toks.iter().map(|t| T::from_tok(if t == "z" && T::from_tok("z").is_none() { "0" } else { t })).collect::<Option<Vec<T>>>()?;
+        // float lanes: every other zero is -0.0 (as in `lane_ty` / `f64_tokens(_, 1)`)
+        let (z, mut zc) = (T::from_tok("z"), 0usize);
+        let elems: Vec<T> = v.iter().map(|&x| { if x == 0 { zc += 1; if zc % 2 == 0 && z.is_some() { return z.clone(); } } T::from_i64(x) }).collect::<Option<Vec<T>>>()?;
         return Array::new(elems, shape).ok();
     }
     let (sh, el) = s.split_once(':')?;
@@ -897,50 +1200,133 @@ fn kind_ok(k: &Kind) -> bool {
 /// element, the first NaN winning.  Value-level answer text in the model's spelling.  `None`: no opinion (zero-size arrays, lanes
 /// with NaN for the sorts, `unique`).
 fn native_answer<T: Lane>(op: &str, shape: &[usize], el: &[T], axis: Option<isize>, arg: &TArg) -> Option<String> {
+    Some(match native_core(op, shape, el, axis, arg)? {
+        Nat::Err(e) => format!("err {e}"),
+        Nat::Sorted { shape, src } => { let toks: Vec<String> = src.iter().map(|&p| el[p].tok()).collect(); format!("ok {}:{}", show_list(&shape), show_list(&toks)) }
+        Nat::Index { shape, vals } => format!("ok {}:{}", show_list(&shape), show_list(&vals)),
+    })
+}
+/// the native reference in structured form (the text form above is derived from it, so validating the text against the model
+/// validates exactly the code the giant cases use in place)
+enum Nat {
+    Err(&'static str),
+    /// sort: result shape; `src[p]` = flat position of the INPUT element that must stand at flat position p of the result
+    Sorted { shape: Vec<usize>, src: Vec<usize> },
+    /// argsort / argmax / argmin: result shape and values
+    Index { shape: Vec<usize>, vals: Vec<usize> },
+}
+fn native_core<T: Lane>(op: &str, shape: &[usize], el: &[T], axis: Option<isize>, arg: &TArg) -> Option<Nat> {
     let n = el.len();
     let nd = shape.len();
     if n == 0 || nd == 0 { return None; }
     let sorting = matches!(op, "tsort" | "targsort");
     if !sorting && !matches!(op, "targmax" | "targmin") { return None; }
     if sorting && el.iter().any(ArrayElement::is_nan) { return None; }
-    if let TArg::Kind(k) = arg { if !kind_ok(k) { return Some("err ParameterError".into()); } }
+    if let TArg::Kind(k) = arg { if !kind_ok(k) { return Some(Nat::Err("ParameterError")); } }
     // (outer, len, inner) of the lanes
     let (outer, len, inner, k) = match axis {
         None => (1, n, 1, usize::MAX),
-        Some(a) => { let k = if a < 0 { a + nd as isize } else { a }; if k < 0 || k >= nd as isize { return Some("err AxisOutOfBounds".into()); } let k = k as usize;
+        Some(a) => { let k = if a < 0 { a + nd as isize } else { a }; if k < 0 || k >= nd as isize { return Some(Nat::Err("AxisOutOfBounds")); } let k = k as usize;
             (shape[..k].iter().product::<usize>(), shape[k], shape[k + 1..].iter().product::<usize>(), k) }
     };
     let lane_idx = |o: usize, i: usize| -> Vec<usize> { (0..len).map(|j| o * len * inner + j * inner + i).collect() };
     let cmp = |a: &T, b: &T| a.partial_cmp(b).unwrap_or(std::cmp::Ordering::Equal);
     if sorting {
-        let mut toks = vec![String::new(); n];
+        let mut res = vec![0usize; n];
         for o in 0..outer { for i in 0..inner {
             let idx = lane_idx(o, i);
             let mut order: Vec<usize> = (0..len).collect();
             order.sort_by(|&x, &y| cmp(&el[idx[x]], &el[idx[y]]));                      // stable
             // sort: position j of the lane receives the j-th smallest; argsort: every element receives its RANK (its position in the
             // sorted lane, equal elements ranked in order of appearance)
-            for (j, &src) in order.iter().enumerate() { if op == "tsort" { toks[idx[j]] = el[idx[src]].tok(); } else { toks[idx[src]] = j.to_string(); } }
+            for (j, &src) in order.iter().enumerate() { if op == "tsort" { res[idx[j]] = idx[src]; } else { res[idx[src]] = j; } }
         } }
         let sh: Vec<usize> = if axis.is_none() { vec![n] } else { shape.to_vec() };
-        return Some(format!("ok {}:{}", show_list(&sh), show_list(&toks)));
+        return Some(if op == "tsort" { Nat::Sorted { shape: sh, src: res } } else { Nat::Index { shape: sh, vals: res } });
     }
     let keep = if let TArg::Keep(kd) = arg { *kd } else { None };
     let is_max = op == "targmax";
     let mut res: Vec<usize> = Vec::with_capacity(outer * inner);
     for o in 0..outer { for i in 0..inner {
-        let idx = lane_idx(o, i);
-        let pos = match idx.iter().position(|&t| el[t].is_nan()) {
+        let at = |j: usize| &el[o * len * inner + j * inner + i];
+        let pos = match (0..len).position(|j| at(j).is_nan()) {
             Some(p) => p,
-            None => { let mut b = 0; for j in 1..len { let c = el[idx[j]].partial_cmp(&el[idx[b]]); if (is_max && c == Some(std::cmp::Ordering::Greater)) || (!is_max && c == Some(std::cmp::Ordering::Less)) { b = j; } } b }
+            None => { let mut b = 0; for j in 1..len { let c = at(j).partial_cmp(at(b)); if (is_max && c == Some(std::cmp::Ordering::Greater)) || (!is_max && c == Some(std::cmp::Ordering::Less)) { b = j; } } b }
         };
         res.push(pos);
     } }
     let sh: Vec<usize> = match axis {
-        None => if keep == Some(true) { if nd > 3 { return Some("err UnsupportedDimension".into()); } vec![1; nd] } else { vec![1] },
+        None => if keep == Some(true) { if nd > 3 { return Some(Nat::Err("UnsupportedDimension")); } vec![1; nd] } else { vec![1] },
         Some(_) => { let mut sh = shape.to_vec(); if keep == Some(true) { sh[k] = 1; } else { sh.remove(k); } sh }
     };
-    Some(format!("ok {}:{}", show_list(&sh), show_list(&res)))
+    Some(Nat::Index { shape: sh, vals: res })
+}
+
+/// GIANT cases (more than `GIANT` elements; `ref` lines only): nothing is turned into text.  The crate's result is compared IN PLACE
+/// with the structured native reference — shape, then element by element (`==`; for f64 additionally the multiset of bit patterns) —
+/// and only the first differing position is reported.
+const GIANT: usize = 200_000;
+fn first_diff<X>(n: usize, f: impl Fn(usize) -> Option<X>) -> Option<(usize, X)> { (0..n).find_map(|p| f(p).map(|x| (p, x))) }
+fn giant_sort_check<T: Lane>(name: &str, r: &Result<Array<T>, ArrayError>, nat: &Nat, input: &[T]) -> Option<String> {
+    match (r, nat) {
+        (Err(e), Nat::Err(want)) => if err_name(e) == *want { None } else { Some(format!("{name}: err {}, native reference: err {want}", err_name(e))) },
+        (Err(e), _) => Some(format!("{name}: err {}, native reference: a result", err_name(e))),
+        (Ok(_), Nat::Err(want)) => Some(format!("{name}: a result, native reference: err {want}")),
+        (Ok(a), Nat::Sorted { shape, src }) => {
+            if !consistent(a) { return Some(format!("{name}: inconsistent result (shape {:?})", a.get_shape().unwrap())); }
+            let (sh, el) = (a.get_shape().unwrap(), a.get_elements().unwrap());
+            if &sh != shape { return Some(format!("{name}: result shape {sh:?}, native reference {shape:?}")); }
+            if let Some((p, d)) = first_diff(el.len(), |p| if el[p] == input[src[p]] { None } else { Some(format!("{} (bits {}) instead of {} (the input element at flat position {})", el[p].tok(), el[p].raw(), input[src[p]].tok(), src[p])) }) {
+                return Some(format!("{name}: first difference at flat position {p} of {}: {d}", el.len()));
+            }
+            if input.first().and_then(Lane::bits64).is_some() {
+                let (mut bi, mut bo): (Vec<u64>, Vec<u64>) = (input.iter().filter_map(Lane::bits64).collect(), el.iter().filter_map(Lane::bits64).collect());
+                bi.sort_unstable(); bo.sort_unstable();
+                if let Some((p, _)) = first_diff(bi.len(), |p| if bi[p] == bo[p] { None } else { Some(()) }) { return Some(format!("{name}: sort does not keep the multiset of bit patterns (sorted bit patterns first differ at rank {p}: {:016x} in the result, {:016x} in the input)", bo[p], bi[p])); }
+            }
+            None
+        }
+        (Ok(_), Nat::Index { .. }) => Some("harness: wrong reference form".into()),
+    }
+}
+fn giant_index_check(name: &str, r: &Result<Array<usize>, ArrayError>, nat: &Nat) -> Option<String> {
+    match (r, nat) {
+        (Err(e), Nat::Err(want)) => if err_name(e) == *want { None } else { Some(format!("{name}: err {}, native reference: err {want}", err_name(e))) },
+        (Err(e), _) => Some(format!("{name}: err {}, native reference: a result", err_name(e))),
+        (Ok(_), Nat::Err(want)) => Some(format!("{name}: a result, native reference: err {want}")),
+        (Ok(a), Nat::Index { shape, vals }) => {
+            if !consistent(a) { return Some(format!("{name}: inconsistent result (shape {:?})", a.get_shape().unwrap())); }
+            let (sh, el) = (a.get_shape().unwrap(), a.get_elements().unwrap());
+            if &sh != shape { return Some(format!("{name}: result shape {sh:?}, native reference {shape:?}")); }
+            first_diff(el.len(), |p| if el[p] == vals[p] { None } else { Some((el[p], vals[p])) }).map(|(p, (got, want))| format!("{name}: first difference at flat position {p} of {}: {got} instead of {want}", el.len()))
+        }
+        (Ok(_), Nat::Sorted { .. }) => Some("harness: wrong reference form".into()),
+    }
+}
+fn typed_giant<T: Lane>(op: &str, rc: &str, a: &Array<T>, axis: Option<isize>, arg: &TArg) -> Option<Verdict> {
+    let input = a.get_elements().unwrap();
+    let shape = a.get_shape().unwrap();
+    bump(&REF_USED);
+    let nat = native_core(op, &shape, &input, axis, arg)?;
+    let mut receivers: Vec<(&str, bool)> = vec![];
+    if rc != "r" { receivers.push(("the plain receiver", false)); }
+    if rc != "p" { receivers.push(("the chained call on Ok(array)", true)); }
+    let mut summary = String::new();
+    for (name, chained) in receivers {
+        let res: Result<Array<T>, ArrayError> = Ok(a.clone());
+        let bad = catch_unwind(AssertUnwindSafe(|| match (op, arg) {
+            ("tsort", TArg::Kind(k)) => giant_sort_check(name, &if chained { with_kind!(res, sort, axis, k) } else { with_kind!(a, sort, axis, k) }, &nat, &input),
+            ("targsort", TArg::Kind(k)) => giant_index_check(name, &if chained { with_kind!(res, argsort, axis, k) } else { with_kind!(a, argsort, axis, k) }, &nat),
+            ("targmax", TArg::Keep(kd)) => giant_index_check(name, &if chained { res.argmax(axis, *kd) } else { a.argmax(axis, *kd) }, &nat),
+            ("targmin", TArg::Keep(kd)) => giant_index_check(name, &if chained { res.argmin(axis, *kd) } else { a.argmin(axis, *kd) }, &nat),
+            _ => Some("harness: no giant form of this operation".into()),
+        })).unwrap_or_else(|_| Some(format!("{name}: panic")));
+        if let Some(d) = bad {
+            return Some(Verdict::Mismatch { observed: d, detail: "GIANT case, compared in place with the native reference (lane membership + std stable sort / rank / first extreme; validated against the model on the other cases of this run)".into() });
+        }
+        summary = match &nat { Nat::Err(e) => format!("err {e}"), Nat::Sorted { shape, .. } | Nat::Index { shape, .. } => format!("ok {}:<{} elements equal to the native reference, compared in place>", show_list(shape), shape.iter().product::<usize>()) };
+    }
+    Some(Verdict::Match(summary))
 }
 
 fn typed_call<T: Lane>(op: &str, a: &Array<T>, axis: Option<isize>, arg: &TArg, chained: bool) -> Run {
@@ -974,6 +1360,7 @@ fn typed<T: Lane>(op: &str, rc: &str, args: &[&str], expected: &str, probe: bool
     let (a, axis, arg) = typed_args::<T>(op, args)?;
     let by_ref = args.len() == 4 && args[3] == "ref";
     if args.len() > 4 || (args.len() == 4 && !by_ref) || (by_ref && expected != "ref" && !probe) { return None; }
+    if by_ref && !probe && a.len().unwrap_or(0) > GIANT { return typed_giant(op, rc, &a, axis, &arg); }
     let call = |chained: bool| -> Run { typed_call(op, &a, axis, &arg, chained) };
     if probe { return Some(Verdict::Open(call(rc == "r").raw)); }
     let mut runs: Vec<(&str, Run)> = vec![];
@@ -1038,7 +1425,28 @@ fn typed_dispatch(op: &str, args: &[&str], expected: &str, probe: bool) -> Optio
         "i8" => typed::<i8>(op, rc, &args[1..], expected, probe),
         "str" => typed::<String>(op, rc, &args[1..], expected, probe),
         "f64" => typed::<f64>(op, rc, &args[1..], expected, probe),
-        _ => None,
+        "L3" => typed::<L3>(op, rc, &args[1..], expected, probe),
+        "L6" => typed::<L6>(op, rc, &args[1..], expected, probe),
+        "L9" => typed::<L9>(op, rc, &args[1..], expected, probe),
+        "L12" => typed::<L12>(op, rc, &args[1..], expected, probe),
+        "L16" => typed::<L16>(op, rc, &args[1..], expected, probe),
+        "L20" => typed::<L20>(op, rc, &args[1..], expected, probe),
+        "L24" => typed::<L24>(op, rc, &args[1..], expected, probe),
+        "L28" => typed::<L28>(op, rc, &args[1..], expected, probe),
+        "L32" => typed::<L32>(op, rc, &args[1..], expected, probe),
+        "L32s" => typed::<L32s>(op, rc, &args[1..], expected, probe),
+        "L40" => typed::<L40>(op, rc, &args[1..], expected, probe),
+        "L48s" => typed::<L48s>(op, rc, &args[1..], expected, probe),
+        "L72" => typed::<L72>(op, rc, &args[1..], expected, probe),
+        _ => {
+            // `sl<k>`: String lanes whose members share a stem of k bytes
+            let k: usize = ty.strip_prefix("sl")?.parse().ok()?;
+            if k == 0 || k > 4096 { return None; }
+            STEM.with(|s| s.set(k));
+            let v = typed::<String>(op, rc, &args[1..], expected, probe);
+            STEM.with(|s| s.set(0));
+            v
+        }
     }
 }
 
